@@ -269,7 +269,14 @@ def c11_5(ctx):
     ctx.check(len(ds) == 1 and 'group(1)' in unparse(ds[0].value), 'items:directive=group1', fac.site(), 'the directive name is pattern group 1', '; '.join(unparse(d) for d in ds))
 
 
-RULES = [c11_1, c11_2, c11_3, c11_4, c11_5]
+def c11_consume(ctx):
+    """A data directive emits its bytes once per occurrence only if the statement loop removes exactly the text of the
+    statement it just parsed (C14.4): removing more drops later directives on the line, removing less parses it twice."""
+    from rules.c14 import c14_4
+    c14_4(ctx)
+
+
+RULES = [c11_1, c11_2, c11_3, c11_4, c11_5, c11_consume]
 
 _D = 'assembler/line_object/data_line.py'
 _F = 'assembler/line_object/directive_line/fill_data.py'
